@@ -279,12 +279,18 @@ func (commit *Commit) Height() int64 {
 	if len(commit.Precommits) == 0 {
 		return 0
 	}
+	if commit.FirstPrecommit() == nil {
+		return 0 // every entry is nil
+	}
 	return commit.FirstPrecommit().Height
 }
 
 func (commit *Commit) Round() int64 {
 	if len(commit.Precommits) == 0 {
 		return 0
+	}
+	if commit.FirstPrecommit() == nil {
+		return 0 // every entry is nil
 	}
 	return commit.FirstPrecommit().Round
 }
@@ -326,6 +332,9 @@ func (commit *Commit) ValidateBasic() error {
 		return errors.New("Commit cannot be for nil block")
 	}
 	if len(commit.Precommits) == 0 {
+		return errors.New("No precommits in commit")
+	}
+	if commit.FirstPrecommit() == nil {
 		return errors.New("No precommits in commit")
 	}
 	height, round := commit.Height(), commit.Round()
